@@ -1,3 +1,4 @@
+mod arcs;
 mod common;
 mod fam_lit;
 mod fam_path;
